@@ -34,6 +34,7 @@ from easynetwork.clients.udp import UDPNetworkClient
 from easynetwork.exceptions import DeserializeError, IncrementalDeserializeError
 from easynetwork.lowlevel.api_async.backend._common.fair_lock import FairLock
 from easynetwork.lowlevel.api_async.endpoints.stream import AsyncStreamEndpoint
+from easynetwork.lowlevel.api_async.transports.abc import AsyncStreamTransport
 from easynetwork.protocol import DatagramProtocol, StreamProtocol
 from easynetwork.serializers.abc import AbstractIncrementalPacketSerializer
 from easynetwork.servers.async_tcp import AsyncTCPNetworkServer
@@ -452,6 +453,129 @@ def _h_fairlock(world: World) -> None:
     _finish(world, wl, box, amain)
 
 
+# ===================================================================================================== TLS harness
+class _PiecewiseTransport(AsyncStreamTransport):
+    """A legal AsyncStreamTransport whose send_all() is NOT atomic with respect to concurrent callers: it hands the
+    data to the wrapped adapter in pieces, suspending in between (like any transport that loops over a partial
+    ``send``).  The transport API does not promise more; AsyncTLSStreamTransport must serialise its users itself."""
+
+    def __init__(self, inner: Any, piece: int):
+        super().__init__()
+        self.inner = inner
+        self.piece = piece
+
+    async def aclose(self) -> None:
+        await self.inner.aclose()
+
+    def is_closing(self) -> bool:
+        return self.inner.is_closing()
+
+    def backend(self) -> Any:
+        return self.inner.backend()
+
+    async def recv(self, bufsize: int) -> bytes:
+        return await self.inner.recv(bufsize)
+
+    async def recv_into(self, buffer: Any) -> int:
+        return await self.inner.recv_into(buffer)
+
+    async def send_all(self, data: Any) -> None:
+        with memoryview(data) as mv:
+            for i in range(0, len(mv), self.piece):
+                await self.inner.send_all(mv[i : i + self.piece])
+                await asyncio.sleep(0)
+
+    async def send_eof(self) -> None:
+        await self.inner.send_eof()
+
+    @property
+    def extra_attributes(self) -> Any:
+        return self.inner.extra_attributes
+
+
+def _h_tls(world: World) -> None:
+    """N tasks calling AsyncTLSStreamTransport.send_all / send_all_from_iterable on ONE transport; the reference TLSPeer
+    must decrypt exactly the multiset of packets"""
+    from easynetwork.lowlevel.api_async.transports.tls import AsyncTLSStreamTransport
+
+    from vsim.tls import TLSPeer, make_context
+
+    wl = _Workload(world, "tls", max_extra_senders=3, max_packets=3)
+    version = ("1.3", "1.2")[world.choose("tls.version", 2)]
+    lib_server = bool(world.choose("tls.lib_server", 2))
+    shape = "eager" if wl.baseline else ("eager", "wtr")[world.choose("tls.shape", 2)]
+    capacity = {1 << 20: 1 << 20, 7: 2048, 16: 2048, 64: 4096, 256: 16384}[wl.capacity]  # TLS records need room
+    world.stats.pop("capacity_small", None)
+    piecewise = 0 if wl.baseline else (0, 64, 700)[world.choose("tls.piecewise", 3)]
+    use_iter = [[world.choose("tls.iter", 2) for _ in lst] for lst in wl.plan]
+    if capacity < (1 << 20):
+        world.fault("capacity_small")
+    world.notes.update(tls=version, lib_server=lib_server, shape=shape, tls_capacity=capacity, piecewise=piecewise)
+    net = SimNet(world)
+    backend = SimAsyncIOBackend(net)
+    d = wl.delivery
+    if d.frag == 1 or (d.frag in (2, 3) and d.size < 16):
+        d.frag, d.size = max(d.frag, 2), 16  # handshake + records byte-by-byte only cost simulation time
+    if len(d.delays) > 2:
+        d.delays = (0, 1)
+    lib, psock = net.socketpair(capacity_ab=capacity, delivery_ab=d)
+    net.short_write_den = wl.short_den
+    peer = TLSPeer(world, psock, server_side=not lib_server, version=version, shape=shape)
+    peer.auto_close_reply = True  # graceful aclose()
+    serializer = _PacketSerializer(wl.piece)
+    state: dict[str, Any] = {}
+
+    async def amain() -> None:
+        loop = asyncio.get_running_loop()
+        if not wl.baseline:
+            swarm_selector(world, loop.sim_selector)  # type: ignore[attr-defined]
+            loop.sim_selector.spurious_den = 0  # type: ignore[attr-defined]
+        tr: Any = await backend.wrap_stream_socket(lib)
+        if piecewise:
+            tr = _PiecewiseTransport(tr, piecewise)
+        tls = await AsyncTLSStreamTransport.wrap(tr, make_context(lib_server, version), server_side=lib_server, server_hostname=None if lib_server else "sim.host", handshake_timeout=200000.0)
+
+        async def send_packet(packet: Any) -> None:
+            if use_iter[packet[0] - 1][packet[1]]:
+                await tls.send_all_from_iterable(serializer.incremental_serialize(packet))
+            else:
+                await tls.send_all(serializer.serialize(packet))
+
+        try:
+            await wl.run_senders(send_packet)
+            guard = 0
+            pipe = lib.tx_pipe
+            assert pipe is not None
+            while peer.engine.error is None and (pipe.flight or pipe.rx):
+                await asyncio.sleep(TICK)  # let the reference peer take what is still on the link before closing
+                guard += 1
+                if guard > 50000:
+                    raise StepCap("C12 tls: the link did not drain within 50000 ticks")
+        finally:
+            with backend.move_on_after(5.0):
+                await tls.aclose()
+            state["closed"] = True
+
+    try:
+        run_async(world, amain)
+    except Deadlock as exc:
+        raise Violation(
+            "no-hang",
+            f"harness=tls: the peer keeps reading but the senders never finish ({len(wl.calls)} of {sum(len(x) for x in wl.plan)} calls returned; peer decrypted {len(peer.plain_in)} of {wl.total_bytes} bytes): {exc}; plan={world.notes}",
+            key="C12/tls/hang",
+        ) from None
+    if not state.get("closed"):
+        raise HarnessError("C12 tls: run ended before the transport was closed")
+    if peer.engine.error is not None:
+        sent, ctx = _check_calls(wl)
+        raise Violation("wire-decodes", f"the reference TLS peer could not decrypt the cipher-text stream: {type(peer.engine.error).__name__} after {len(peer.plain_in)} plaintext bytes; {ctx}", key=f"C12/tls/wire/tls-{type(peer.engine.error).__name__}")
+
+    class _Plain:
+        received = peer.plain_in
+
+    _check(wl, _Plain)
+
+
 # ===================================================================================================== threaded harnesses
 def _drain_world(world: World, done: Callable[[], bool]) -> None:
     steps = 0
@@ -591,6 +715,7 @@ HARNESSES = [
     Harness("client", _h_client, weight=1),
     Harness("server", _h_server, weight=1),
     Harness("endpoint-fairlock", _h_fairlock, weight=1),
+    Harness("tls", _h_tls, weight=1),
     Harness("threads-tcp", _h_threads_tcp, weight=2),
     Harness("threads-udp", _h_threads_udp, weight=1),
 ]
